@@ -271,3 +271,7 @@ func (s *SourceControl) VerifActiveKind() string {
 
 // VerifC10SetAutoRestart sets what LanceroSourceConfig.ShouldAutoRestart would set.
 func (ls *LanceroSource) VerifC10SetAutoRestart(b bool) { ls.shouldAutoRestart = b }
+
+// VerifStateNoLock reads the source state without taking sourceStateLock (an observation that cannot block
+// behind a goroutine parked inside the lock).
+func (ds *AnySource) VerifStateNoLock() SourceState { return ds.sourceState }
